@@ -636,7 +636,9 @@ class W(cohdl.Entity):
             self.o <<= {expr}
 """
 
-E2E_OPS = ["add", "sub", "mul", "lshift", "rshift", "and", "or", "xor", "concat", "eq", "lt", "ge"]
+E2E_OPS = ["add", "sub", "mul", "lshift", "rshift", "and", "or", "xor", "concat", "eq", "lt", "ge",
+           "mod", "rem", "truncdiv", "floordiv", "add", "sub", "mod", "lt"]
+E2E_DIV = ("mod", "rem", "truncdiv", "floordiv")
 
 
 def ty_src(kind, w):
@@ -674,6 +676,22 @@ def e2e_cases(rng, n):
         if op in ("lt", "ge") and kind == "bv":
             continue
         a = [kind, wa, vec_value(rng, kind, wa)]
+        if op == "floordiv" and kind == "s":
+            kind = "u"
+            a = [kind, wa, vec_value(rng, kind, wa)]
+        if op in E2E_DIV + ("add", "sub", "lt", "ge", "eq") and kind != "bv" and rng.random() < 0.5:
+            # vector (op) Python int, either order; the int is inside the vector's range (and not 0 as a divisor)
+            lo, hi = (0, (1 << wa) - 1) if kind == "u" else (-(1 << (wa - 1)), (1 << (wa - 1)) - 1)
+            lit = rng.randint(lo, hi)
+            if rng.random() < 0.5:
+                if op in E2E_DIV and lit == 0:
+                    lit = hi
+                out.append([op, a, ["py", lit]])
+            else:
+                if op in E2E_DIV and a[2] == 0:
+                    a = [kind, wa, hi]
+                out.append([op, ["py", lit], a])
+            continue
         if op == "mul" and rng.random() < 0.6:
             # vector * int literal (the literal stays a literal in both variants), half of them outside the vector's range
             lo, hi = (0, (1 << wa) - 1) if kind == "u" else (-(1 << (wa - 1)), (1 << (wa - 1)) - 1)
@@ -685,7 +703,28 @@ def e2e_cases(rng, n):
         if op in ("lshift", "rshift"):
             wb = rng.choice([1, 2, 3])
         b = [kb, wb, vec_value(rng, kb, wb)]
+        if op in E2E_DIV and b[2] == 0:
+            b = [kb, wb, 1 if wb == 1 and kb == "u" else (-1 if wb == 1 else 1)]
         out.append([op, a, b])
+    return out
+
+
+def e2e_conversions(rng, n):
+    """the conversion applied by an assignment to a wider / differently typed target: (source operand, target type)"""
+    out = []
+    while len(out) < n:
+        ks = rng.choice(["u", "u", "s", "bv"])
+        w = rng.choice([1, 2, 3, 4, 5, 8])
+        if ks == "u":
+            kt, wt = rng.choice([("u", w + rng.choice([0, 1, 2, 5])), ("s", w + rng.choice([1, 2, 5])), ("bv", w)])
+        elif ks == "s":
+            kt, wt = rng.choice([("s", w + rng.choice([0, 1, 3])), ("bv", w)])
+        else:
+            kt, wt = rng.choice([("bv", w), ("u", w), ("s", w)])
+        v = vec_value(rng, ks, w)
+        if rng.random() < 0.5:
+            v = ((1 << w) - 1) if ks != "s" else rng.choice([-1, -(1 << (w - 1))])     # top bit set
+        out.append(([ks, w, v], (kt, wt)))
     return out
 
 
@@ -710,6 +749,14 @@ def run_e2e(ck, n):
         designs.append({"name": "c09_k%d" % i, "entity": "W",
                         "source": E2E_SRC.format(ta=ta, tb=tb, tr=tr, expr=expr_src(op, py_expr(a), py_expr(b)))})
         meta.append((c, r))
+    for i, (a, (kt, wt)) in enumerate(e2e_conversions(ck.rng, max(12, n // 3))):
+        tr = ty_src(kt, wt)
+        c = [["assign_to", kt, wt], a, ["py", 0]]
+        designs.append({"name": "c09_cp%d" % i, "entity": "W",
+                        "source": E2E_SRC.format(ta=ty_src(a[0], a[1]), tb="Bit", tr=tr, expr="self.a")})
+        designs.append({"name": "c09_ck%d" % i, "entity": "W",
+                        "source": E2E_SRC.format(ta=ty_src(a[0], a[1]), tb="Bit", tr=tr, expr=py_expr(a))})
+        meta.append((c, ["v", kt, wt, None]))
     res = X.compile_designs(ck, designs)
     terms, info = [], []
     for j, (c, r) in enumerate(meta):
@@ -719,8 +766,15 @@ def run_e2e(ck, n):
             ck.hist("e2e", "rejected: ports=%s constants=%s" % (rp["ok"], rk["ok"]))
             continue
         try:
-            dp = R.design_to_coq(R.read_design(rp["vhdl"])[1])
-            dk = R.design_to_coq(R.read_design(rk["vhdl"])[1])
+            ddp, ddk = R.read_design(rp["vhdl"])[1], R.read_design(rk["vhdl"])[1]
+            for dd in (ddp, ddk):
+                for sd in dd.sigs:
+                    # the test bench drives the operand values from time 0 (a divisor port must not power up as 0)
+                    if sd.dir == "in" and sd.name in ("a", "b") and c[{"a": 1, "b": 2}[sd.name]][0] != "py":
+                        opd = c[{"a": 1, "b": 2}[sd.name]]
+                        sd.init = (("V", {"u": "uns", "s": "sgn", "bv": "slv"}[opd[0]], opd[1], opd[2] % (1 << opd[1]))
+                                   if opd[0] in ("u", "s", "bv") else ("L", bool(opd[1])))
+            dp, dk = R.design_to_coq(ddp), R.design_to_coq(ddk)
         except R.Unparsed as ex:
             ck.hist("e2e", "outside the reader's subset")
             ck.obligation(False)
@@ -747,6 +801,13 @@ def run_e2e(ck, n):
         ck.obligation(same)
         ck.hist("e2e", "agree" if same else "differ")
         ck.nontrivial(["e2e", c[0], c[1][:2], c[2][:2]])
+        if not same and not isinstance(c[0], str):
+            ck.violation({"op": "assign", "src": c[1][0], "tgt": c[0][1], "class": "e2e"},
+                         "an assignment converts a constant and a run-time value differently: %s -> %s[%d], source value %d: "
+                         "(ports, constants) = %s" % (ty_src(c[1][0], c[1][1]), c[0][1], c[0][2], c[1][2], o[:300]),
+                         {"case": c, "outputs_ports_constants": o, "source_ports": designs[2 * j]["source"],
+                          "source_constants": designs[2 * j + 1]["source"]})
+            continue
         if not same:
             key = {"op": c[0], "lhs": c[1][0], "rhs": c[2][0], "class": "e2e"}
             if int_factor_class(c):
